@@ -79,6 +79,10 @@ class Interp:
         self.instances = []
         self.classes_in_order = []
         self.reads = []  # (name, selected (kind, site) | None, candidates, in_fill)
+        self.var_tokens = []  # one record per printed variable, in output order
+        self.captured = []  # frames captured by the fills currently being rendered (between frames + loop copies)
+        self.last_read = None
+        self.in_defaultref = 0
         self.elem_roots = {}  # uid -> [instance numbers]
         self.elem_occ = []  # (uid, [instance numbers]) per rendered element, document order
         self.provider_count = 0
@@ -101,6 +105,19 @@ class Interp:
     def note_read(self, name, sel, env, in_fill):
         cands = [(k, s) for k, s, vs in env if vs is not None and name in vs]
         self.reads.append((name, sel, cands, in_fill))
+        def base(kind):
+            kind = kind.split(":")[-1]
+            return "for" if kind == "leak" else kind
+
+        self.last_read = {
+            "name": name,
+            "sel": (base(sel[0]), sel[1]) if sel else None,
+            "in_fill": in_fill,
+            "via_defaultref": self.in_defaultref > 0,
+            "captured_sites": [(base(c[0]), c[1]) for c in self.captured],
+            # candidates incl. frames the statement does not order (so that a defect model can name them)
+            "cands": [(base(k), s, any(fr is c for c in self.captured)) for fr in env for k, s, vs in [fr] if vs is not None and name in vs],
+        }
 
     # ------------------------------------------------------------------ evaluation
     def eval(self, nodes, env, owner, provs, top, depth, in_fill, slot_stack):
@@ -132,6 +149,7 @@ class Interp:
             elif k == "var":
                 v, sel = lookup(env, n[1])
                 self.note_read(n[1], sel, env, in_fill)
+                self.var_tokens.append(dict(self.last_read, at=len(out)))
                 out.append(f"[{n[1]}={'' if v is MISSING else v}]")
             elif k == "dataref":
                 v, sel = lookup(env, n[1])
@@ -140,7 +158,11 @@ class Interp:
             elif k == "defaultref":
                 v, sel = lookup(env, n[1])
                 if callable(v):
-                    out += v()
+                    self.in_defaultref += 1
+                    try:
+                        out += v()
+                    finally:
+                        self.in_defaultref -= 1
             elif k == "probe":
                 if owner is None:
                     raise Unspecified("probe outside a component template")
@@ -206,7 +228,8 @@ class Interp:
         fills = {}
         if body is not None:
             if body[0] == "implicit":
-                fills["default"] = Closure(body[1], owner, env, (), site="implicit")
+                if body[1]:  # an empty / whitespace-only body is no body
+                    fills["default"] = Closure(body[1], owner, env, (), site="implicit")
             else:
                 self._text_beside_fills = False
                 self.collect_fills(body[1], env, owner, (), fills, in_fill)
@@ -244,7 +267,7 @@ class Interp:
             tenv = ()
             if "loop_frames_leak_into_isolated_template" in self.sw:
                 for fr in reversed(env):
-                    if fr[0] in ("for", "leak"):
+                    if fr[0].split(":")[-1] in ("for", "leak") and fr[2] is not None:
                         tenv = (("leak", fr[1], fr[2]),)
                         break
             tenv = tenv + (data_fr,)
@@ -321,9 +344,14 @@ class Interp:
             else:
                 # django: outer variables < bound between tag and fill < inner component data [< aliases]
                 inner_data = (inst.tenv[-1],)
-                around_slot = tuple(("unspec-inner", fr[1], fr[2]) for fr in env[len(inst.tenv):])
+                around_slot = tuple(("unspec-inner:" + fr[0].split(":")[-1], fr[1], fr[2]) for fr in env[len(inst.tenv):])
                 fenv = c.def_env + c.between + inner_data + around_slot + (alias_fr,)
-            return self.eval(c.body, fenv, c.lex_owner, provs, top, depth, True, slot_stack + ("fill",))
+            cap = list(c.between) + [fr for fr in c.def_env if fr[0].split(":")[-1] in ("for", "leak")]
+            self.captured.extend(cap)
+            try:
+                return self.eval(c.body, fenv, c.lex_owner, provs, top, depth, True, slot_stack + ("fill",))
+            finally:
+                del self.captured[len(self.captured) - len(cap) :]
         if flags.get("required"):
             raise Expected("TemplateSyntaxError", f"required slot '{name}' not filled")
         self.events["slot_default"] += 1
